@@ -365,6 +365,9 @@ class Run:
     # stage 7 (more analysis code): mapcheck 6 s
     for _p in ("C09", "C05"): TRANSLATION_TIES.setdefault(_p, []).append("mapcheck")
     for _p in ("C15",): TRANSLATION_TIES.setdefault(_p, []).append("mapctor")   # 7 s
+    for _p in ("C02", "C13"): TRANSLATION_TIES.setdefault(_p, []).append("ctornew")   # 7 s
+    for _p in ("C11",): TRANSLATION_TIES.setdefault(_p, []).append("ctorjson")   # 5 s
+    for _p in ("C06",): TRANSLATION_TIES.setdefault(_p, []).append("restparam")   # 3 s
 
     def run_translation_ties(self, cov):
         areas = self.TRANSLATION_TIES.get(self.prop)
